@@ -634,6 +634,11 @@ var symRe = regexp.MustCompile(`[A-Za-z_][A-Za-z0-9_!.$-]*`)
 func (e *Engine) loadPreludeSyms() {
 	ms, _ := filepath.Glob(filepath.Join(e.verifDir, "spec", "*.smt2"))
 	for _, m := range ms {
+		if strings.HasSuffix(m, ".lemmas.smt2") {
+			// constants declared inside lemma proof blocks are local to those blocks:
+			// they are not symbols a contract may mention
+			continue
+		}
 		b, err := os.ReadFile(m)
 		if err != nil {
 			continue
